@@ -252,7 +252,7 @@ def _commute_case(name, dim, nargs, kind, op):
         syms += names("abc"[k], n)
 
     @case("C07", "commute.%s" % name, syms, mode="field", functions=FUN + ["geometer.point._join_meet_duality"], timeout=240,
-          tier="thorough" if (dim == 3 and nargs == 3) else "quick",
+          tier=("experimental" if kind == "hyper" else "thorough") if (dim == 3 and nargs == 3) else "quick",  # meet of three transformed planes: > 30 min (inverse of a symbolic 4x4)
           assumptions=LEAF + ["both sides are non-zero: join/meet results are non-zero by the C01 contract (independent arguments; an invertible map preserves independence)"])
     def _(ctx):
         geometer, gt = _g()
@@ -280,7 +280,7 @@ _commute_case("meet.EEE.3d", 3, 3, "hyper", "meet")
 
 
 @case("C07", "commute.PL.EL.3d", names("t", 4, 4) + names("a", 4) + names("b", 4) + names("c", 4), mode="field",
-      functions=FUN + ["geometer.point._join_meet_duality"], assumptions=LEAF, timeout=240, tier="thorough")
+      functions=FUN + ["geometer.point._join_meet_duality"], assumptions=LEAF, timeout=240, tier="thorough", explore_time=1800)
 def commute_pl_el(ctx):
     geometer, gt = _g()
     T = ctx.arr("t", 4, 4)
@@ -478,6 +478,43 @@ def action_dtype_order(ctx):
     t = translation(1, 2, 3)
     ts = t * s
     ctx.ensure("dual/tangency-evaluated-before-the-transformation-do-not-leak", bool(ts.is_tangent(t * e)) and not bool(ts.is_tangent(e)) and bool(ts.contains(t * g.Point(2, 0, 0))), witness="sphere")
+    # collections on both sides of the batch threshold 64 of utils.math.inv, with small homogeneous representatives (det ~ 1e-9 .. 1e-12)
+    from geometer.transformation import TransformationCollection
+    rs = np.random.RandomState(2)
+    for nb in (63, 64, 70):
+        for dim, scale in ((2, 1e-3), (3, 1e-3), (2, 1e-4)):
+            mats = rs.randint(-1, 2, size=(nb, dim + 1, dim + 1)).astype(float) + 5 * np.eye(dim + 1)  # strictly diagonally dominant: invertible
+            tc = TransformationCollection(mats * scale)
+            w = dict(batch=nb, dim=dim, scale=scale)
+            try:
+                inv = tc.inverse()
+                prod = np.einsum("nij,njk->nik", np.asarray(inv.array, dtype=float), mats * scale)
+                ok = all(np.allclose(prod[k] / prod[k][0, 0], np.eye(dim + 1), atol=1e-7) for k in range(nb))
+                pc = g.PointCollection(np.hstack([rs.randint(-3, 4, size=(nb, dim)).astype(float), np.ones((nb, 1))]))
+                ok = ok and (inv * (tc * pc)) == pc
+            except Exception as e:
+                ok = False
+                w["exception"] = "%s: %s" % (type(e).__name__, str(e)[:100])
+            ctx.ensure("collection-inverse-with-small-representatives-both-sides-of-64", ok, witness=w)
+    # a transformation that is used, edited in place (Tensor.__setitem__ / .array) and used again must act with its CURRENT matrix
+    for dim, m0, edit in [(2, [[2.0, 1, 1], [0, 3, -1], [0, 0, 1]], ((0, 1), 5.0)), (3, [[2.0, 1, 0, 1], [0, 3, 1, -1], [1, 0, 2, 2], [0, 0, 0, 1]], ((2, 3), -4.0))]:
+        for how in ("setitem", "array"):
+            t = Transformation(np.array(m0))
+            pts = [g.Point(*p) for p in (pts2 if dim == 2 else pts3)]
+            h = g.join(*pts[:dim])
+            _ = t.inverse(), t * h, t ** -1  # first use (anything derived from the matrix may have been stored)
+            if how == "setitem":
+                t[edit[0]] = edit[1]
+            else:
+                t.array[edit[0]] = edit[1]
+            m1 = np.array(m0)
+            m1[edit[0]] = edit[1]
+            w = dict(dim=dim, edit=how)
+            inv = t.inverse()
+            ok = np.allclose(np.asarray(inv.array, dtype=float) @ m1, np.eye(dim + 1) * (np.asarray(inv.array, dtype=float) @ m1)[0, 0], atol=1e-9)
+            th = t * h
+            ok = ok and all(bool(th.contains(t * x)) for x in pts[:dim]) and all(inv * (t * x) == x for x in pts) and th == g.join(*[t * x for x in pts[:dim]])
+            ctx.ensure("in-place-edit-between-two-uses:the-current-matrix-acts", ok, witness=w)
     p = g.Point(1, 2)
     l = g.Line(1, 1, -3)
     _ = l.contains(p), l.base_point, l.direction, l.basis_matrix
